@@ -27,11 +27,15 @@ enum S {
     RefreshQuick, // 2in13_v2 set_refresh
     Frame,        // update_and_display_frame (thorough tier: stickiness must survive ordinary use)
     Clear,        // clear_frame
+    /// another symbol of the panel's alphabet (partial updates / clears, quick-refresh pairs): the stickiness
+    /// must survive them as well
+    Other(u8),
 }
 impl S {
     fn ops(self, spec: &'static Spec) -> Vec<Op> {
         match self {
             S::Frame => vec![frame_op(spec, K::UpdateAndDisplay, 0xC17)],
+            S::Other(i) => syms(spec)[i as usize].clone(),
             S::Clear => vec![Op::new(K::Clear)],
             S::SelFull => vec![Op::arg(K::SetLut, 1)],
             S::SelQuick => vec![Op::arg(K::SetLut, 2)],
@@ -44,6 +48,7 @@ impl S {
     }
     fn tag(self) -> &'static str {
         match self {
+            S::Other(_) => "other",
             S::SelFull => "select-full",
             S::SelQuick => "select-quick",
             S::Reload => "reload",
@@ -130,7 +135,7 @@ fn eval(spec: &'static Spec, refs: &Refs, seq: &[S], rep: Option<&mut Report>) -
                     }
                 }
             }
-            S::Display | S::Frame | S::Clear => {}
+            S::Display | S::Frame | S::Clear | S::Other(_) => {}
         }
     }
     if let Some(rep) = rep {
@@ -166,6 +171,14 @@ pub fn run(ctx: &Ctx) -> Report {
             alpha.push(S::Frame);
             alpha.push(S::Clear);
         }
+        // partial updates / clears and quick-refresh pairs of this panel
+        let all = syms(spec);
+        let others: Vec<S> = all
+            .iter()
+            .enumerate()
+            .filter(|(_, s)| s.iter().any(|o| matches!(o.k, K::UpdatePartial | K::ClearPartial | K::PartialOld | K::PartialNew | K::UpdateOld | K::UpdateNew | K::UpdatePartial2 | K::PartialAchromatic | K::PartialChromatic | K::SetPartialBase)) && !s.iter().any(|o| matches!(o.k, K::SetLut | K::SetRefresh | K::Sleep | K::WakeUp)))
+            .map(|(i, _)| S::Other(i as u8))
+            .collect();
         let maxlen = 4;
         let mut cur: Vec<Vec<S>> = vec![vec![]];
         for _ in 0..maxlen {
@@ -181,6 +194,22 @@ pub fn run(ctx: &Ctx) -> Report {
                 cases.push(Case { spec, seq: n.clone() });
             }
             cur = next;
+        }
+        // one other symbol inside short sequences: [select; other; reload | sleep+wake | reload, sleep+wake]
+        for o in &others {
+            for sel in [S::SelQuick, S::SelFull] {
+                for tail in [vec![S::Reload], vec![S::SleepWake], vec![S::SleepWake, S::Reload], vec![S::Display, S::Reload]] {
+                    let mut v = vec![sel, *o];
+                    v.extend(tail.iter().cloned());
+                    cases.push(Case { spec, seq: v });
+                    let mut v2 = vec![S::SelQuick, S::SelFull, *o];
+                    if sel == S::SelQuick {
+                        v2 = vec![S::SelFull, S::SelQuick, *o];
+                    }
+                    v2.extend(tail.iter().cloned());
+                    cases.push(Case { spec, seq: v2 });
+                }
+            }
         }
         // static clause: full and quick tables are distinct where the driver ships both
         let refs = measure(spec);
@@ -199,7 +228,15 @@ pub fn run(ctx: &Ctx) -> Report {
         let spec = c.spec;
         let refs = measure(spec);
         rep.eval(spec.name);
-        let tagseq = |s: &[S]| s.iter().map(|x| x.tag()).collect::<Vec<_>>().join(">");
+        let tagseq = |s: &[S]| {
+            s.iter()
+                .map(|x| match x {
+                    S::Other(i) => sym_kinds(&syms(spec), &[*i as usize]),
+                    _ => x.tag().to_string(),
+                })
+                .collect::<Vec<_>>()
+                .join(">")
+        };
         match eval(spec, &refs, &c.seq, Some(rep)) {
             Err(e) => {
                 rep.count("histories_with_failing_op", 1);
